@@ -28,8 +28,12 @@ void Serializer::run(Archive& a)
     }
 }
 
-void Serializer::serializeTree(const Tree& t)
+void Serializer::serializeTree(const Tree& t_)
 {
+    // Tree::walk() on a tree with remap nodes walks a flattened temporary,
+    // so we flatten here and keep the result alive
+    flattened.push_back(t_.flatten());
+    const Tree& t = flattened.back();
     for (auto& n : t.walk())
     {
         // Skip this id, as it has already been stored
